@@ -69,6 +69,8 @@ func spec(id string) (propSpec, bool) {
 	return d, true
 }
 
+var raceMode bool
+
 var (
 	verifDir   = "/verif"
 	harnessDir = "/verif/harness"
@@ -229,6 +231,9 @@ func runShard(ctx context.Context, bin, pkgDir, id, tier string, seed int64, idx
 		"VERIF_SHARD="+strconv.Itoa(idx), "VERIF_NSHARDS="+strconv.Itoa(n),
 		"VERIF_OUT="+filepath.Join(outDir, fmt.Sprintf("part-%d.json", idx)),
 		"VERIF_DIR="+verifDir, "VERIF_BUDGET_S="+strconv.Itoa(int(timeout.Seconds())))
+	if raceMode {
+		cmd.Env = append(cmd.Env, "GORACE=halt_on_error=1 exitcode=66", "VERIF_SAVE_CURRENT=1")
+	}
 	err := cmd.Run()
 	res := shardResult{idx: idx, log: logPath}
 	if cctx.Err() == context.DeadlineExceeded {
@@ -295,6 +300,7 @@ func run(id, tier string) int {
 	if err != nil {
 		fatal2("%s: %v", id, err)
 	}
+	raceMode = ps.Race
 	pkgDir := filepath.Join(harnessDir, ps.Pkg)
 	outDir := filepath.Join(buildDir, "out", id+"-"+tier)
 	_ = os.RemoveAll(outDir)
@@ -374,6 +380,24 @@ func run(id, tier string) int {
 		if r.timedOut {
 			inconclusive = append(inconclusive, fmt.Sprintf("shard %d exceeded its time budget", r.idx))
 		}
+		if r.exit == 66 {
+			// the race detector halted the shard: the case that was running is the replay
+			cur := filepath.Join(replayDir, fmt.Sprintf("current-%d.json", r.idx))
+			final := filepath.Join(replayDir, fmt.Sprintf("race-%d.json", r.idx))
+			report := raceReport(r.log)
+			if data, err := os.ReadFile(cur); err == nil {
+				var m map[string]any
+				if json.Unmarshal(data, &m) == nil {
+					m["error"] = "data race reported by the Go race detector:\n" + report
+					data, _ = json.MarshalIndent(m, "", " ")
+				}
+				_ = os.WriteFile(final, data, 0o644)
+				_ = os.Remove(cur)
+				violations[final] = true
+			} else {
+				inconclusive = append(inconclusive, "race detector report outside any case:\n"+report)
+			}
+		}
 	}
 
 	// native fuzz campaigns (thorough only)
@@ -399,7 +423,7 @@ func run(id, tier string) int {
 	// replay files present but not mentioned (e.g. process died right after writing)
 	files, _ := filepath.Glob(filepath.Join(replayDir, "*.json"))
 	for _, f := range files {
-		if strings.Contains(filepath.Base(f), "hang-candidate") {
+		if strings.Contains(filepath.Base(f), "hang-candidate") || strings.HasPrefix(filepath.Base(f), "current-") {
 			continue
 		}
 		violations[f] = true
@@ -407,7 +431,7 @@ func run(id, tier string) int {
 
 	// a shard that failed without leaving a violation is a harness problem
 	for _, r := range results {
-		if r.exit != 0 && !r.timedOut && r.exit != 3 {
+		if r.exit != 0 && !r.timedOut && r.exit != 3 && r.exit != 66 {
 			has := false
 			data, _ := os.ReadFile(r.log)
 			if reViol.Match(data) {
@@ -496,6 +520,19 @@ func run(id, tier string) int {
 	}
 	fmt.Printf("OK property=%s tier=%s seed=%d evaluations=%v distinct_nontrivial=%v wall=%.1fs\n", id, tier, seed, cov["evaluations"], cov["distinct_nontrivial"], time.Since(start).Seconds())
 	return 0
+}
+
+func raceReport(logPath string) string {
+	data, _ := os.ReadFile(logPath)
+	i := bytes.Index(data, []byte("WARNING: DATA RACE"))
+	if i < 0 {
+		return tail(logPath, 30)
+	}
+	rep := data[i:]
+	if len(rep) > 5000 {
+		rep = rep[:5000]
+	}
+	return string(rep)
 }
 
 func hangReproduces(bin, pkgDir, file string) bool {
@@ -670,10 +707,24 @@ func replay(path string) int {
 	cmd := exec.CommandContext(ctx, bin, "-test.run", "^TestReplay$", "-test.count=1", "-test.v")
 	cmd.Dir = filepath.Join(harnessDir, ps.Pkg)
 	cmd.Env = append(goEnv(), "VERIF_REPLAY="+abs, "VERIF_DIR="+verifDir)
+	if ps.Race {
+		cmd.Env = append(cmd.Env, "GORACE=halt_on_error=1 exitcode=66")
+	}
 	var buf bytes.Buffer
 	cmd.Stdout, cmd.Stderr = &buf, &buf
 	err = cmd.Run()
 	out := buf.String()
+	if ee, ok := err.(*exec.ExitError); ok && ee.ExitCode() == 66 {
+		fmt.Printf("VIOLATION property=%s replay=%s\n", c.Property, abs)
+		if i := strings.Index(out, "WARNING: DATA RACE"); i >= 0 {
+			r := out[i:]
+			if len(r) > 3000 {
+				r = r[:3000]
+			}
+			fmt.Println(r)
+		}
+		return 1
+	}
 	for _, line := range strings.Split(out, "\n") {
 		if strings.HasPrefix(strings.TrimSpace(line), "KNOWN-FINDING:") {
 			fmt.Println(strings.TrimSpace(line))
